@@ -1,5 +1,6 @@
 (* Model/LU.v — spindalis/src/solvers/decomposition/lu.rs (Doolittle, no pivoting)
-   and plu.rs (partial pivoting) on functional matrices.  Loops are [for_range]
+   and plu.rs (partial pivoting, after the repair d0c7441: pivot threshold EPSILON * n * max|a_ij|)
+   on functional matrices.  Loops are [for_range]
    folds performing the same updates in the same order as the Rust code, so the
    float instance agrees with the implementation bit for bit.  Early [return Err]
    inside a loop is an accumulator of type [res]: once it is not [Ok] the
@@ -102,13 +103,27 @@ Section LU.
       (fun k m => plu_row_update n i k (mset m k i (ndiv (m k i) (m i i))))
       m.
 
-  Definition plu_step (n : nat) (i : nat) (acc : res (mat T * mat T)) : res (mat T * mat T) :=
+  (* scale = 0.0; for row, col in 0..n { magnitude = |a[row][col]|; if magnitude > scale { scale = magnitude } } *)
+  Definition plu_scale (n : nat) (a : mat T) : T :=
+    for_range 0 n
+      (fun row s =>
+         for_range 0 n
+           (fun col s => let magnitude := nabs (a row col) in if ngtb magnitude s then magnitude else s)
+           s)
+      n0.
+
+  (* threshold = f64::EPSILON * size as f64 * scale   (left to right) *)
+  Definition plu_threshold (n : nat) (a : mat T) : T :=
+    nmul (nmul neps (nofnat n)) (plu_scale n a).
+
+  (* one step; a pivot with |pivot| <= threshold is refused *)
+  Definition plu_step (n : nat) (thr : T) (i : nat) (acc : res (mat T * mat T)) : res (mat T * mat T) :=
     match acc with
     | Ok (m, p) =>
       let pivot_row := fst (plu_pivot_search n i m) in
       let m1 := if pivot_row =? i then m else mswap_rows m pivot_row i in
       let p1 := if pivot_row =? i then p else mswap_rows p pivot_row i in
-      if nltb (nabs (m1 i i)) neps then Err ESingularMatrix
+      if nleb (nabs (m1 i i)) thr then Err ESingularMatrix
       else Ok (retab n n (plu_eliminate n i m1), retab n n p1)
     | e => e
     end.
@@ -123,7 +138,7 @@ Section LU.
   Definition plu (h w : nat) (a : mat T) : res (mat T * mat T * mat T) :=
     if negb (h =? w) then Err ENonSquareMatrix
     else
-      match for_range 0 h (plu_step h) (Ok (a, midentity)) with
+      match for_range 0 h (plu_step h (plu_threshold h a)) (Ok (a, midentity)) with
       | Ok (m, p) => Ok (retab h h (plu_lower m), retab h h (plu_upper m), p)
       | Err e => Err e
       | Panic x => Panic x
